@@ -108,7 +108,7 @@ Lemma inc_dec_local :
   lookup o obj (menv m) name = Ok (VInt z) -> stk m = top :: s ->
   exec o consts funcs fns obj (S k) code ip m =
   exec o consts funcs fns obj k code (ip + 3)
-       (mkM s (env_set (menv m) name (VInt (wrap64 (z + (if is_inc then 1 else -1))))) (trace m) (polls m)).
+       (mkM s (env_set (menv m) (trim_dollar name) (VInt (wrap64 (z + (if is_inc then 1 else -1))))) (trace m) (polls m)).
 Proof.
   intros o consts funcs fns obj code ip m idx name z top s k is_inc Hb Ho Hip Hp Hn Hlk Hs.
   assert (Hl : (lenN code <=? ip) = false) by (apply N.leb_gt; exact Hip).
@@ -123,7 +123,7 @@ Lemma set_local :
   byte_at code ip = Some OpSet -> ip < lenN code -> polls m = None ->
   stk m = VStr name :: v :: s -> (forall x off, v <> VIter x off) ->
   exec o consts funcs fns obj (S k) code ip m =
-  exec o consts funcs fns obj k code (ip + 1) (mkM s (env_set (menv m) name v) (trace m) (polls m)).
+  exec o consts funcs fns obj k code (ip + 1) (mkM s (env_set (menv m) (trim_dollar name) v) (trace m) (polls m)).
 Proof.
   intros o consts funcs fns obj code ip m name v s k Hb Hip Hp Hs Hv.
   assert (Hl : (lenN code <=? ip) = false) by (apply N.leb_gt; exact Hip).
